@@ -83,6 +83,7 @@ void set_legacy(int on);
 typedef void (*guard_fn)(void *arg, FILE *out);
 /* prints the child's output as the result; "crash <sig|san>" if it died */
 void guarded(guard_fn fn, void *arg);
+extern char *g_progress;   /* shared with the forked child: what it was doing (shown after "crash") */
 
 /* header helpers */
 void reseal(unsigned char *frag);     /* recompute metadata_chksum (zlib crc32) */
